@@ -11,7 +11,8 @@ LEVEL_TEXT = (
     "(AOP keeps the empty target region's delimiters), for token lists of any length; tokens_between is the slice between the FIRST occurrences of its two delimiters with the documented exceptions, exactly; and the lemma "
     "prompt_layout (for AOTP and AOP): _trim_if_unsolved_maze(_sequence_tokens(...)) - the real bodies - is the full layout for a solved maze, the layout up to TARGET_END for a targeted maze and "
     "[ADJLIST_START, *adjacency, ADJLIST_END] for an untargeted one, never raising, provided no region token is itself one of the eight delimiters (the real constants of maze_dataset.constants). "
-    "EDGE SET: EdgeSubsets.ConnectionEdges._get_edges lists precisely the selected edge set - every row a lattice edge inside the grid whose connection bit is the selected kind (connections, or walls with walls=True), "
+    "EDGE SET: lattice_connection_array(n) / EdgeSubsets.AllLatticeEdges._get_edges list every unit edge of the n x n lattice exactly once, lesser endpoint first (n(n-1) horizontal edges in row-major order, then n(n-1) vertical ones: "
+    "np.meshgrid, 2-d slices, ravel, np.column_stack, reshape, np.concatenate through their library contracts and the row-major index algebra); EdgeSubsets.ConnectionEdges._get_edges lists precisely the selected edge set - every row a lattice edge inside the grid whose connection bit is the selected kind (connections, or walls with walls=True), "
     "lesser endpoint first, every such edge in some row, none in two (through the adjacency-list contract connection_list_to_adj_list, proved under C13; grids up to 127x127); EdgePermuters.BothCoords._permute lists the edges it is given followed by the same edges with their "
     "coordinates exchanged (`in both orientations`). "
     "DECODABLE REGIONS: lemma regions_roundtrip - token_utils.get_adj_list_tokens / get_origin_tokens / get_target_tokens / get_path_tokens(trim_end=True) (real bodies) recover from a full AOTP sequence exactly "
@@ -20,7 +21,7 @@ LEVEL_TEXT = (
     "which implements the statement's own quantifier: an independent decoder configured only from the tokenizer's parameters recovers regions, edge sets with marks, origin, target and step sequences, "
     "exhaustively per region over all 216 adjacency-list and 1008 path element configurations (a stratified slice in the quick tier) plus a pairwise-covering set of full configurations, on mazes of all three kinds."
 )
-LEVEL_NOTE = "Trusted: pyvc encoding; np.concatenate / np.expand_dims library models. The dynamic composition of tokenizer elements is outside the verified subset; the bounded decoder is the harness's own."
+LEVEL_NOTE = "Trusted: pyvc encoding; np.concatenate / np.expand_dims / np.column_stack / reshape / np.flip / np.append library models. The dynamic composition of tokenizer elements is outside the verified subset; the bounded decoder is the harness's own."
 TECHNIQUE = "bounded run-time checking of the real tokenizers against an independent decoder over enumerated element configurations and mazes + contracts on the direction / step-size / step-token leaves discharged by z3"
 CONTRACT_MODULES = ["contracts.lattice_maze", "contracts.token_utils", "contracts.steps", "contracts.sequencing", "contracts.adjlist"]
 TU = "maze_dataset/token_utils.py"
@@ -30,7 +31,8 @@ PROVE = [(TU, "get_cardinal_direction"), (TU, "get_relative_direction"), (MT, "S
          (TU, "tokens_between"), (MT, "PromptSequencers.AOTP._sequence_tokens"), (MT, "PromptSequencers.AOP._sequence_tokens"),
          ("/verif/contracts/lemmas_src.py", "prompt_layout"), ("/verif/contracts/lemmas_src.py", "prompt_layout_aop"),
          ("/verif/contracts/lemmas_src.py", "regions_roundtrip"),
-         ("maze_dataset/token_utils.py", "connection_list_to_adj_list"), (MT, "EdgeSubsets.ConnectionEdges._get_edges"), (MT, "EdgePermuters.BothCoords._permute")]
+         ("maze_dataset/token_utils.py", "connection_list_to_adj_list"), (MT, "EdgeSubsets.ConnectionEdges._get_edges"), (MT, "EdgePermuters.BothCoords._permute"),
+         ("maze_dataset/utils.py", "lattice_connection_array"), (MT, "EdgeSubsets.AllLatticeEdges._get_edges")]
 ASSUMPTIONS = ["region token lists contain none of the eight region delimiters (coordinate, connector, direction and distance tokens are other vocabulary entries: checked by the bounded decoder, not proved)", "consecutive solution cells are lattice-adjacent (what SolvedMaze solutions are); start_index + 1 < len(solution)"]
 EXPLANATION = "see DESIGN.md C06"
 
